@@ -265,9 +265,12 @@ pub fn main(args: &Args) -> usize {
         // seeded random prepared states with larger energies and populations
         "random" => {
             let n = args.num("n", 1000);
-            let maxe = args.num("maxe", 60) as u32;
+            let maxe0 = args.num("maxe", 60) as u32;
             for run in 0..n {
                 let mut r = rng(args.seed(), run);
+                // the cases with a huge common offset (every fifth) use values around the resolution of floats at
+                // that magnitude (2^60 has steps of 256), so that sums are inexact
+                let maxe = if run % 5 == 4 { 400 } else { maxe0 };
                 let size = r.gen_range(1..=6usize);
                 // few distinct values: equal individuals are common
                 let span = if r.gen_bool(0.5) { 3 } else { maxe };
